@@ -79,7 +79,7 @@ def run(ctx):
     if not vc.prepare(ctx, 'C14'):
         return rep.finish({'evaluations': 0, 'distinct_nontrivial': 0, 'rule': 'harness did not build', 'samples': []}, [])
     quick = ctx.tier == 'quick'
-    n = 1200 if quick else 20000
+    n = 3000 if quick else 20000
     g = diaggen.DiagGen(ctx.rng.fork('diag'))
     cases = []
     for i in range(n):
@@ -137,7 +137,7 @@ def run(ctx):
     for fid, cnt in sorted(findings.items()):
         rep.known_finding('%s (%d inputs of this form)' % (fid, cnt))
     cov = {'evaluations': len(cases), 'distinct_nontrivial': len(distinct),
-           'rule': 'files written line by line so that the position of the injected fault is known by construction: 1-7 layout blocks before it (statements, blank lines, line comments, block comments over several lines, single- and multi-line #define, #undef, inactive sections holding junk, defines, comments, strings over two lines and failing includes, active sections, nested includes up to two deep, macro uses, strings and macro calls over several lines), the fault at a chosen indentation and behind 0-2 statements on its line, in the main file or in an include of it, blocks behind it; a fifth of the cases with CRLF line ends, a sixth without final newline; faults: an undefined variable (warning), a type error (error and stack trace entry), a syntax error (parse diagnostic), __LINE__/__FILE__, and a type error in a function called from a code block (three stack trace entries); the reported [L|C|file] must equal the true position exactly; a quarter as many texts that are parsed without preprocessing (what compile does: // and /* */ comments, also in front of the fault on its line, strings over two lines), same faults, same demand; the reference expander followed by the tokenizer model must place the fault token there too',
+           'rule': 'files written line by line so that the position of the injected fault is known by construction: 1-7 layout blocks before it (statements, blank lines, line comments, block comments over several lines, single- and multi-line #define, #undef, inactive sections holding junk, defines, comments, strings over two lines and failing includes, active sections, nested includes up to two deep, macro uses, strings and macro calls over several lines), the fault at a chosen indentation and behind 0-2 statements on its line, in the main file or in an include of it, blocks behind it; a fifth of the cases with CRLF line ends, a sixth without final newline; faults: an undefined variable (warning), a type error (error and stack trace entry), a syntax error (parse diagnostic), __LINE__/__FILE__, a type error in a function called from a code block (three stack trace entries), an undefined variable inside a macro argument behind a line break and behind the closing parenthesis of a call whose argument spans lines (line and file), a type error raised at the end of a block (while condition, count/select/findIf predicate: position of the last statement, also in the innermost stack trace entry), a preprocessor diagnostic of its own (macro defined twice: the line of the second definition), __LINE__ at the end of a line, with an attached comment and on consecutive lines; include files and directories with blanks in their names; the reported [L|C|file] must equal the true position exactly; a quarter as many texts that are parsed without preprocessing (what compile does: // and /* */ comments, also in front of the fault on its line, strings over two lines), same faults, same demand; the reference expander followed by the tokenizer model must place the fault token there too',
            'samples': samples, 'oracle_failures': n_or, 'model_mismatches': n_mm, 'cases_by_kind': kinds, 'known_findings_seen': findings, 'generator_counts': g.stats}
     return rep.finish(cov, ['columns count characters (a tab is one column), lines are 1-based, columns 0-based, as the implementation prints them',
                             'positions inside macro expansions are not checked beyond the line of the use'])
